@@ -4,6 +4,7 @@ import (
 	"fmt"
 	"go/types"
 	"math"
+	"strconv"
 	"strings"
 
 	"golang.org/x/tools/go/ssa"
@@ -373,6 +374,26 @@ func (e *Engine) registerIntrinsics() {
 	in["errors.Is"] = func(e *Engine, fn *ssa.Function, a []Value) Value {
 		return term.Bool(e.errorsIs(a[0].(IfaceV), a[1].(IfaceV), 0))
 	}
+	in["strconv.ParseFloat"] = func(e *Engine, fn *ssa.Function, a []Value) Value {
+		str, ok := a[0].(StrV).concrete()
+		bits, _ := intOf(a[1])
+		if !ok {
+			// symbolic literal: opaque value, error or not (the parser only derives a warning from it)
+			v := e.freshVar("f", 64)
+			if e.choose(0, 1) == 1 {
+				e.logConcrete("parsefloat", 1)
+				return TupleV{v, e.makeError(strConst("strconv.ParseFloat: parsing: invalid syntax"), nil)}
+			}
+			e.logConcrete("parsefloat", 0)
+			return TupleV{v, IfaceV{}}
+		}
+		f, err := strconv.ParseFloat(str, bits)
+		var ev Value = IfaceV{}
+		if err != nil {
+			ev = e.makeError(strConst(err.Error()), nil)
+		}
+		return TupleV{term.Const(64, math.Float64bits(f)), ev}
+	}
 	// sync primitives: single-threaded execution
 	nop := func(e *Engine, fn *ssa.Function, a []Value) Value { return nil }
 	for _, n := range []string{"(*sync.Mutex).Lock", "(*sync.Mutex).Unlock", "(*sync.RWMutex).Lock", "(*sync.RWMutex).Unlock", "(*sync.RWMutex).RLock", "(*sync.RWMutex).RUnlock"} {
@@ -428,13 +449,13 @@ func (e *Engine) errorsIs(err, target IfaceV, depth int) bool {
 				return true
 			}
 		}
-		if m := e.Prog.LookupMethod(err.T, nil, "Is"); m != nil && m.Signature.Params().Len() == 1 {
+		if m := e.lookupMethod(err.T, "Is"); m != nil && m.Signature.Params().Len() == 1 {
 			r := e.callFunction(m, []Value{err.V, target}).(*term.Term)
 			if e.branch(r) {
 				return true
 			}
 		}
-		m := e.Prog.LookupMethod(err.T, nil, "Unwrap")
+		m := e.lookupMethod(err.T, "Unwrap")
 		if m == nil {
 			return false
 		}
@@ -588,4 +609,13 @@ func lastSeg(s string) string {
 		return s[i+1:]
 	}
 	return s
+}
+
+// lookupMethod returns the exported method name of type t, or nil.
+func (e *Engine) lookupMethod(t types.Type, name string) *ssa.Function {
+	sel := e.Prog.MethodSets.MethodSet(t).Lookup(nil, name)
+	if sel == nil {
+		return nil
+	}
+	return e.Prog.MethodValue(sel)
 }
